@@ -300,8 +300,12 @@ func runOne(e entry, v int, nb int) (line string) {
 			fr := runtime.CallersFrames(pcs[:n])
 			for {
 				f, more := fr.Next()
-				if strings.Contains(f.File, "/"+e.name+"/p") {
-					i := strings.Index(f.File, "/"+e.name+"/p")
+				base := e.name
+				if j := strings.Index(base, "#"); j >= 0 {
+					base = base[:j]
+				}
+				if strings.Contains(f.File, "/"+base+"/p") {
+					i := strings.Index(f.File, "/"+base+"/p")
 					line = fmt.Sprintf("%%s:%%d", f.File[i+1:], f.Line)
 					break
 				}
@@ -315,6 +319,9 @@ func runOne(e entry, v int, nb int) (line string) {
 		}
 	}()
 	e.run()
+	if rt.Marked {
+		return "N"
+	}
 	if rt.Overflowed() {
 		return "-!"
 	}
@@ -354,6 +361,11 @@ def write_module(root, progs, styles):
             imports.append('\t%s "%s"' % (pr.pkgname(j), pr.pkgpath(j)))
         resets = "; ".join("%s.Reset()" % pr.pkgname(j) for j in range(p["npkgs"]))
         entries.append('\t{"%s", func() { %s; %s.F0() }},' % (name, resets, pr.pkgname(k)))
+        # probes of the one-parameter functions: called with a non-nil argument, is the result ever nil?
+        for f, fd in enumerate(p["funcs"]):
+            if fd["nparams"] == 1 and not fd.get("method"):
+                entries.append('\t{"%s#%d", func() { %s; if %s.F%d(&%s.T{}) == nil { rt.Marked = true } }},' % (
+                    name, f, resets, pr.pkgname(fd["pkg"]), f, pr.pkgname(0)))
     os.makedirs(os.path.join(root, "cmd", "run"), exist_ok=True)
     open(os.path.join(root, "cmd", "run", "main.go"), "w").write(MAIN_TMPL % dict(imports="\n".join(imports), entries="\n".join(entries), nb=NB))
     return pos, cpos
@@ -437,12 +449,13 @@ def run_model(progs, ctrs=None):
         return None, "modelrun minigo failed rc=%s (%d/%d lines): %s" % (rc, len(out), len(lines), err[-1500:])
     res = {}
     for name, l in zip(progs, out):
-        head, decl, funcs, dups, runs = [x.strip() for x in l.split("|")]
+        head, decl, funcs, dups, inferred, runs = [x.strip() for x in l.split("|")]
         flags = dict(kv.split("=") for kv in head.split())
         an = flags["an"] == "1"
         res[name] = dict(wf=flags["wf"] == "1", guarded=flags["guarded"] == "1", an=an, gsafe=flags["gsafe"] == "1", clocal=flags["clocal"] == "1",
                          decl=parse_trigs(decl), funcs=[parse_trigs(x) for x in funcs.split("/")] if an else [],
                          dups=[parse_trigs(x) for x in dups.split("/")] if an else [],
+                         infer=set(int(x) for x in inferred.split(",") if x),
                          runs=[int(x) for x in runs.split(",")])
     return res, None
 
@@ -725,11 +738,19 @@ def truth_panics(truth, name, pos):
         byline.setdefault("%s:%d" % (f, ln), set()).add(d)
     out = []
     for x in truth.get(name, []):
-        if x in ("-", "-!"):
+        if x in ("-", "-!", "N"):
             out.append(None)
         else:
             out.append(byline.get(x, {"?" + x}))
     return out
+
+
+def truth_nil_result(truth, name, f):
+    """some run of F_f(non-nil) returned nil (None if the function was not probed)"""
+    rs = truth.get("%s#%d" % (name, f))
+    if rs is None:
+        return None
+    return any(x == "N" for x in rs)
 
 
 def truth_complete(truth, name):
@@ -827,7 +848,8 @@ def _run_suite(ctx, cases, styles_seed):
         fl, flow = flagged[n]
         exec_bad = [(v, sorted(t) if t else None, mr) for v, (t, mr) in enumerate(zip(tp, m["runs"]))
                     if (t is None) != (mr == 0) or (t is not None and mr not in t)]
-        obs[n] = dict(model=m, ctr=ctrs[n], real_trig=rtc, model_trig=mtc, odd=odd, reports=rr, other=other,
+        probes = {f: truth_nil_result(truth, n, f) for f, fd in enumerate(c.prog["funcs"]) if fd["nparams"] == 1 and not fd.get("method")}
+        obs[n] = dict(model=m, ctr=ctrs[n], probes=probes, real_trig=rtc, model_trig=mtc, odd=odd, reports=rr, other=other,
                       truth=tp, complete=truth_complete(truth, n), flagged=fl, flow=flow, exec_bad=exec_bad,
                       panics=set().union(*[t for t in tp if t]) if any(tp) else set())
     return {"obs": obs}
@@ -895,3 +917,101 @@ def amplify(p, returns=True, args=True):
     q = dict(p)
     q["funcs"] = [dict(fd, body=go(fd["body"])) for fd in p["funcs"]]
     return q
+
+
+def isolate(p, f):
+    """search helper: a three-function program around the body of function f of p: F0 calls F1 (= f's body) with a
+    non-nil argument and dereferences the result; every call inside the body goes to a stub F2 that returns nil or
+    not depending on an opaque condition; package-level variables become locals filled from the stub"""
+    fd = p["funcs"][f]
+    gl = sorted(set(x[1] for x in _vars_of(fd["body"]) if x[0] == "G"))
+    cs = [100]
+
+    def v(x):
+        return ("L", 60 + x[1]) if isinstance(x, tuple) and x[0] == "G" else x
+
+    def at(a):
+        if isinstance(a, tuple) and a[0] == "nest":
+            return "nil"
+        return v(a)
+
+    def cd(c):
+        k = c[0]
+        if k == "nonnil":
+            return ("nonnil", v(c[1]))
+        if k == "cderef":
+            return ("cderef", c[1] + 100, v(c[2]))
+        if k == "not":
+            return ("not", cd(c[1]))
+        if k in ("and", "or"):
+            return (k, cd(c[1]), cd(c[2]))
+        return c
+
+    def go(s):
+        k = s[0]
+        if k == "seq":
+            return ("seq", go(s[1]), go(s[2]))
+        if k == "assign":
+            return ("assign", v(s[1]), at(s[2]))
+        if k == "call":
+            cs[0] += 1
+            return ("call", v(s[1]) if s[1] is not None else None, 2, [], cs[0])
+        if k == "deref":
+            return ("deref", s[1] + 100, v(s[2]))
+        if k == "if":
+            return ("if", cd(s[1]), go(s[2]), go(s[3]))
+        if k == "while":
+            return ("while", cd(s[1]), go(s[2]))
+        if k == "return":
+            return ("return", at(s[1]))
+        return s
+
+    pre = []
+    for g in gl:
+        cs[0] += 1
+        pre.append(("call", ("L", 60 + g), 2, [], cs[0]))
+    f0 = dict(nparams=0, pkg=0, method=False, body=M.seq([("call", L(0), 1, ["new"], 1), ("deref", 1, L(0))]))
+    f1 = dict(nparams=1, pkg=0, method=False, body=M.seq(pre + M.flatten(go(M.expand(p)["funcs"][f]["body"]))))
+    f2 = dict(nparams=0, pkg=0, method=False, body=M.seq([("if", ("opaque",), ("return", "nil"), ("skip",)), ("return", "new")]))
+    return dict(funcs=[f0, f1, f2], ginit=[], gpkg=[], npkgs=1)
+
+
+def _vars_of(s, acc=None):
+    acc = [] if acc is None else acc
+
+    def c(cc):
+        if cc[0] == "nonnil":
+            acc.append(cc[1])
+        elif cc[0] == "cderef":
+            acc.append(cc[2])
+        elif cc[0] == "not":
+            c(cc[1])
+        elif cc[0] in ("and", "or"):
+            c(cc[1]); c(cc[2])
+
+    def a(x):
+        if isinstance(x, tuple) and x[0] in ("L", "G"):
+            acc.append(x)
+        elif isinstance(x, tuple) and x[0] == "nest":
+            for y in x[2]:
+                a(y)
+
+    k = s[0]
+    if k == "seq":
+        _vars_of(s[1], acc); _vars_of(s[2], acc)
+    elif k == "assign":
+        a(s[1]); a(s[2])
+    elif k == "call":
+        if s[1] is not None:
+            a(s[1])
+        for y in s[3]:
+            a(y)
+    elif k == "deref":
+        a(s[2])
+    elif k == "if":
+        c(s[1]); _vars_of(s[2], acc); _vars_of(s[3], acc)
+    elif k == "while":
+        c(s[1]); _vars_of(s[2], acc)
+    elif k == "return":
+        a(s[1])
+    return acc
